@@ -51,15 +51,23 @@ func (conn *Conn) h_PING(line *Line) {
 
 // Handler for initial registration with server once tcp connection is made.
 func (conn *Conn) h_REGISTER(line *Line) {
-	if conn.cfg.EnableCapabilityNegotiation {
-		conn.Cap(CAP_LS)
+	for _, l := range conn.registration() {
+		conn.Raw(l)
 	}
+}
 
-	if conn.cfg.Pass != "" {
-		conn.Pass(conn.cfg.Pass)
+// registration returns the lines a new connection registers with.
+func (conn *Conn) registration() []string {
+	var lines []string
+	if conn.cfg.EnableCapabilityNegotiation {
+		lines = append(lines, CAP+" "+CAP_LS)
 	}
-	conn.Nick(conn.cfg.Me.Nick)
-	conn.User(conn.cfg.Me.Ident, conn.cfg.Me.Name)
+	if conn.cfg.Pass != "" {
+		lines = append(lines, PASS+" "+conn.cfg.Pass)
+	}
+	return append(lines,
+		NICK+" "+conn.cfg.Me.Nick,
+		USER+" "+conn.cfg.Me.Ident+" 12 * :"+conn.cfg.Me.Name)
 }
 
 func (conn *Conn) getRequestCapabilities() *capSet {
